@@ -77,7 +77,7 @@ ALPHABET = [
     'alter type default::A create annotation default::note := "hi"',
     'alter type default::A create access policy p allow all using (global default::g ?= "x")',
     # objects of the global layer referenced from the user layer
-    "create extension package foo version '1.0' { set ext_module := 'ext::foo'; create module ext::foo; create type ext::foo::T { create property v: str } }",
+    "create extension package foo version '1.0' { set ext_module := 'ext::foo'; create module ext::foo; create type ext::foo::T extending std::BaseObject }",
     'create extension foo',
     "drop extension package foo version '1.0'",
     'drop extension foo',
@@ -221,6 +221,17 @@ def check(schema, dropped):
             problems.append(('get_referrers-raises',
                              str(tgt.get_name(schema)), repr(e)[:100]))
             continue
+        try:
+            plain = {o.id for o in schema.get_referrers(tgt)} & user_ids
+        except Exception as e:
+            plain = None
+            problems.append(('get_referrers-raises',
+                             str(tgt.get_name(schema)), repr(e)[:100]))
+        want_all = set().union(*byfield.values())
+        if plain is not None and plain != want_all:
+            problems.append(('referrer-lookup-disagrees',
+                             str(tgt.get_name(schema)), len(plain),
+                             len(want_all)))
         for key, ids in byfield.items():
             got = {o.id for o in have.get(key, ())} & user_ids
             if got != ids:
